@@ -50,11 +50,16 @@ class StepView(object):
 
     def nodes(self, oname):
         wf = self.sc['wfs'][self.obs[oname]['wf']]
-        return {int(n): v for n, v in wf['nodes'].items()}
+        return wf_nodes(wf)
 
     def edges(self, oname):
         wf = self.sc['wfs'][self.obs[oname]['wf']]
         return [(int(u), int(v), vol) for u, v, vol in wf['edges']]
+
+
+def wf_nodes(wf):
+    """{node id: [comp, data]} - nodes are stored as an ordered list [[id, comp, data], ...] (file order)."""
+    return {int(n[0]): [n[1], n[2]] for n in wf['nodes']}
 
 
 def feasible(sc):
@@ -180,7 +185,7 @@ def gen(seed, profile='general'):
         rng.shuffle(pool)
         names = pool[:nobs]
     for i in range(nobs):
-        dur = pick('dur', {1: 15, 2: 20, 3: 20, 4: 15, 5: 10, 6: 8, 8: 7, 10: 5})
+        dur = pick('dur', {1: 15, 2: 19, 3: 19, 4: 14, 5: 10, 6: 7, 7: 5, 8: 5, 9: 3, 10: 3})
         if i == 0:
             start = t
         elif pattern == 'gaps':
@@ -233,12 +238,20 @@ def gen(seed, profile='general'):
         n = pick('ntasks', {1: 15, 2: 20, 3: 20, 4: 15, 5: 10, 6: 10, 8: 10})
         shape = pick('shape', {'single': 8, 'chain': 18, 'forkjoin': 18, 'diamond': 14,
                                'disconnected': 12, 'random': 30})
-        nodes = {}
+        # node ids are permuted and the file order shuffled in half of the workflows, so that neither
+        # id order nor file order is a topological order
+        perm = list(range(n))
+        order = list(range(n))
+        if rng.random() < 0.5:
+            rng.shuffle(perm)
+            rng.shuffle(order)
+        nodes = [None] * n
         for j in range(n):
             cm = pick('comp', {0: 12, 0.4: 10, 1: 22, 1.5: 10, 2: 18, 3: 14, 4: 8, 6: 6})
             dm = rng.choice([None, None, 0, 0.5, 1, 3])
-            nodes[str(j)] = [cm * cpu_ref, None if dm is None else dm * bw_ref]
-        edges = [[u, v, rng.choice([0, 0.3, 1, 2.5, 4]) * bw_ref] for u, v in _dag(rng, n, shape)]
+            nodes[j] = [perm[j], cm * cpu_ref, None if dm is None else dm * bw_ref]
+        nodes = [nodes[j] for j in order]
+        edges = [[perm[u], perm[v], rng.choice([0, 0.3, 1, 2.5, 4]) * bw_ref] for u, v in _dag(rng, n, shape)]
         wfs.append({'nodes': nodes, 'edges': edges})
     for o in obs:
         if o['wf'] >= len(wfs):
@@ -267,7 +280,7 @@ def gen(seed, profile='general'):
         for o in obs:
             wf = wfs[o['wf']]
             succ = {u for u, v, _ in wf['edges']}
-            for n in wf['nodes']:
+            for n in sorted(x[0] for x in wf['nodes']):
                 p = 0.45 if int(n) in succ else 0.25
                 if rng.random() < p:
                     faults['delays']['%s:%s' % (o['name'], n)] = rng.choice([1, 1, 2, 3, 5])
@@ -277,9 +290,13 @@ def gen(seed, profile='general'):
                                  'degree': rng.choice(['LOW', 'MID', 'HIGH', 'NONE']),
                                  'seed': rng.choice([20, 1, 7, 12345])}
     if rng.random() < fk.get('F2', 0):
-        faults['adv'] = {'seed': rng.randint(0, 10 ** 6), 'rate': rng.choice([0.2, 0.35, 0.6]),
-                         'kinds': rng.sample(['busy', 'ingest', 'dup', 'foreign', 'unknown',
-                                              'resched'], rng.randint(1, 6))}
+        if rng.random() < 0.55:
+            # proposals that the scheduler must *skip*: the run is expected to complete (C04 under F2)
+            kinds = rng.sample(['busy', 'ingest', 'dup'], rng.randint(1, 3))
+        else:
+            # includes proposals that must be *rejected with an error*: the run aborts at the first one
+            kinds = rng.sample(['busy', 'ingest', 'dup', 'foreign', 'unknown', 'resched'], rng.randint(1, 6))
+        faults['adv'] = {'seed': rng.randint(0, 10 ** 6), 'rate': rng.choice([0.1, 0.2, 0.35, 0.6]), 'kinds': kinds}
     if rng.random() < fk.get('F3', 0):
         for o in obs:
             if rng.random() < 0.6:
@@ -337,7 +354,8 @@ PROFILES = {
               'shape': {'forkjoin': 35, 'random': 35, 'disconnected': 15, 'diamond': 15},
               'nm': {2: 20, 3: 30, 4: 30, 5: 20},
               'unit': {'seconds': 100}, 'buffer': {'ample': 95, 'wait': 5},
-              'faults': {'F1': 0.0, 'F1m': 0.4, 'F3': 0.0, 'F4': 0.0}},
+              'dists': ['normal', 'poisson', 'uniform'],
+              'faults': {'F1': 0.0, 'F1m': 0.5, 'F3': 0.0, 'F4': 0.0}},
     'delay': {'faults': {'F1': 0.6, 'F1m': 0.4, 'F3': 0.0, 'F4': 0.2},
               'buffer': {'ample': 95, 'wait': 5}, 'monitor': 'real',
               'dur': {1: 25, 2: 30, 3: 25, 4: 20}, 'unit': {'seconds': 90, 'custom': 10},
